@@ -6,6 +6,10 @@ package memory
 //@ field[C20] Storage.counterOutgoing: atomic
 //@ field[C20] Storage.messages: guarded_by(mu)
 
+// a new store has handed out no number in either direction and holds no message
+//@ func NewStorage() (res *Storage)
+//@   ensures[C05,C10] @empty res != nil && fresh(res) && res.counterIncoming == 0 && res.counterOutgoing == 0 && res.messages != nil
+
 //@ func (s *Storage) GetNextSeqNum(storageID fix.StorageID) (n int, err error)
 //@   requires s != nil
 //@   modifies s.counterIncoming, s.counterOutgoing
